@@ -632,8 +632,8 @@ package command
 //@   opaque parsePortRanges, parsePortsFile, parseExcludeFile
 //@   exit require rate:    call parseRateLimit(bind_s) as (c, w, e) when len(pre(o.rawRateLimit)) > 0 && ret == nil then s == pre(o.rawRateLimit) && e == nil && o.rateCount == c && o.rateWindow == w
 //@   exit require exclude: call parseExcludeFile(_) as (x, e) when len(pre(o.rawExcludeFile)) > 0 && ret == nil then e == nil && o.excludeIPs == x
-//@   exit require ports:   call parsePortRanges(bind_s) as (pr, e) when len(pre(o.rawPortRanges)) > 0 && ret == nil then s == pre(o.rawPortRanges) && e == nil
-//@   exit require file:    call parsePortsFile(_) as (pr, e) when len(pre(o.portFile)) > 0 && ret == nil then e == nil
+//@   exit require ports:   call parsePortRanges(bind_s) as (pr, e) when len(pre(o.rawPortRanges)) > 0 && ret == nil then s == pre(o.rawPortRanges) && e == nil && len(o.portRanges) >= len(pr) && (forall k int :: 0 <= k && k < len(pr) ==> o.portRanges[k] == pr[k])
+//@   exit require file:    call parsePortsFile(_) as (pr, e) when len(pre(o.portFile)) > 0 && ret == nil then e == nil && len(o.portRanges) >= len(pr) && (forall k int :: 0 <= k && k < len(pr) ==> o.portRanges[len(o.portRanges) - len(pr) + k] == pr[k])
 //@   ensures workers: ret == nil ==> o.workers > 0
 //@ func (*packetScanCmdOpts).parseRawOptions
 //@   props C15 C18 C02 C17
@@ -647,5 +647,5 @@ package command
 //@   props C18 C01
 //@   opaque (*ipScanCmdOpts).parseRawOptions, parsePortRanges, parsePortsFile
 //@   exit require base:  call parseRawOptions(_) as (e) when ret == nil then e == nil
-//@   exit require ports: call parsePortRanges(bind_s) as (pr, e) when len(pre(o.rawPortRanges)) > 0 && ret == nil then s == pre(o.rawPortRanges) && e == nil
-//@   exit require file:  call parsePortsFile(_) as (pr, e) when len(pre(o.portFile)) > 0 && ret == nil then e == nil
+//@   exit require ports: call parsePortRanges(bind_s) as (pr, e) when len(pre(o.rawPortRanges)) > 0 && ret == nil then s == pre(o.rawPortRanges) && e == nil && len(o.portRanges) >= len(pr) && (forall k int :: 0 <= k && k < len(pr) ==> o.portRanges[k] == pr[k])
+//@   exit require file:  call parsePortsFile(_) as (pr, e) when len(pre(o.portFile)) > 0 && ret == nil then e == nil && len(o.portRanges) >= len(pr) && (forall k int :: 0 <= k && k < len(pr) ==> o.portRanges[len(o.portRanges) - len(pr) + k] == pr[k])
